@@ -20,14 +20,15 @@ RULE = ("clause sets over the unmocking inventory: traits whose unmock_with list
         "how deep) and on the verdict. distinct = canonical JSON; non-trivial = a call reaches a real function or the missing-function panic")
 
 
-def gen_case(rng):
+def gen_case(rng, pool=None):
     tag = [0]
     def fresh():
         tag[0] += 1
         return tag[0]
     terms = []
-    pool = [0, 1, 2, 3, 10, 11, 12, 13, 20]
-    for mid in rng.sample(pool, rng.randint(0, 4)):
+    t_only = pool is not None
+    pool = pool or [0, 1, 2, 3, 10, 11, 12, 13, 20]
+    for mid in rng.sample(pool, rng.randint(0, min(4, len(pool)))):
         mask = rng.choice([255, rng.randrange(256), 1 << rng.randrange(8)])
         kind = rng.choice(["unm", "unm", "ret", "chain", "unm_n"])
         if kind == "unm":
@@ -49,9 +50,9 @@ def gen_case(rng):
     for _ in range(rng.randint(3, 9)):
         i = rng.randrange(ninst)
         r = rng.random()
-        if r < 0.3:
+        if r < 0.3 and not t_only:
             evs.append({"base": ("call", i, 13, rng.randrange(8))})
-        elif r < 0.45:
+        elif r < 0.45 and not t_only:
             evs.append({"base": ("call", i, 12, rng.randrange(7))})
         else:
             evs.append({"base": ("call", i, rng.choice(pool), rng.randrange(8))})
@@ -73,9 +74,28 @@ def reaches_real(case):
 def run(tier, seed):
     t0 = time.time()
     rng = random.Random(seed)
-    obligations = C.proof_obligations("C16", MODULE, THEOREMS) + C.inventory_obligation()
+    obligations = C.proof_obligations("C16", MODULE, THEOREMS)
+    pending_failure = None
+    try:
+        obligations += C.inventory_obligation(with_dtrait=True)
+    except C.CheckFailure as pf:
+        pending_failure = pf          # look for a concrete failing input first
     cases = [gen_case(rng) for _ in range(200 if tier == "quick" else 1200)]
-    impl, model = D.both(CRATE, cases)
+    feat = None
+    try:
+        impl, model = D.both(CRATE, cases)
+    except C.CheckFailure as build_failure:
+        feat = ["std-build"]
+        # the inventory with the mixed-signature unmock_with list no longer compiles: look for a concrete failing
+        # call on the homogeneous trait T alone before reporting the broken correspondence
+        cases = [gen_case(rng, pool=[0, 1, 2, 3]) for _ in range(200)]
+        try:
+            impl, model = D.both(CRATE, cases, features=["std-build"])
+        except C.CheckFailure:
+            raise build_failure
+        if all(proj_kinds(c, impl[i]) == proj_kinds(c, model[i]) for i, c in enumerate(cases)):
+            raise build_failure
+        pending_failure = None
     for c, m in zip(cases, model):
         c["_obs"] = m
     bad = [i for i, c in enumerate(cases) if proj_kinds(c, impl[i]) != proj_kinds(c, model[i])]
@@ -114,13 +134,13 @@ def run(tier, seed):
             cands = K.shrink_candidates(case)[:40]
             if not cands:
                 break
-            ci, cm = D.both(CRATE, cands)
+            ci, cm = D.both(CRATE, cands, features=feat)
             nxt = next((c for k, c in enumerate(cands) if proj_kinds(c, ci[k]) != proj_kinds(c, cm[k])), None)
             if nxt is None:
                 break
             case = nxt
-        ci, cm = D.both(CRATE, [case])
-        payload = {"property": "C16", "seed": seed, "theorem_or_correspondence": "correspondence C16: unmocking vs model",
+        ci, cm = D.both(CRATE, [case], features=feat)
+        payload = {"property": "C16", "seed": seed, "theorem_or_correspondence": "correspondence C16: unmocking vs model", "features": feat,
                    "case": case, "rust_clause": D.rust_clause(case["terms"]), "events": [K.event_tok(e) for e in case["events"]],
                    "expected_by_model": cm[0], "observed_on_implementation": ci[0], "disagreeing_cases_in_run": len(bad)}
         path = C.write_replay("C16", seed, payload)
@@ -140,6 +160,8 @@ def run(tier, seed):
     if f1_hits:
         f = next(f for f in C.known_findings()["known"] if f["property"] == "C16" and f.get("id") == "F1")
         print(f"KNOWN-FINDING: property=C16 {f['what']} ({f1_hits} calls of this run)")
+    if pending_failure is not None:
+        raise pending_failure
     C.write_evidence("C16", tier, seed, cov, time.time() - t0, 0,
                      assumptions=["model/implementation agreement on the generated cases only; fixed inventory of unmock_with lists"])
     print(f"C16: {len(obligations)} theorems closed; {len(cases)} co-executions agree ({time.time()-t0:.1f}s)")
@@ -149,7 +171,7 @@ def run(tier, seed):
 def replay(path):
     payload = json.load(open(path))
     case = payload["case"]
-    ci, cm = D.both(CRATE, [case])
+    ci, cm = D.both(CRATE, [case], features=payload.get("features"))
     print("model:", cm[0]); print("impl :", ci[0])
     if proj_kinds(case, ci[0]) != proj_kinds(case, cm[0]):
         C.violation("C16", path); return 1
